@@ -287,7 +287,9 @@ def main_pairs(pid, tier, seed, prop_codes, prop_mod, serving_files, what, mode,
             stim = gen_stim(rng, cfg, devs)
             # integer speeds only: with a fractional ns conversion the whole-ns rounding of an interrupt stamp
             # depends on the real time of the previous tick, which an unrelated part legitimately moves
-            b = dict(cfg=cfg, devs=devs, speed=rng.choice([(1, 1), (2, 1)]), initial=0, stim=stim)
+            # ... started at time 0, after a day, or with the wall clock (ns since 1970) as the initial time
+            b = dict(cfg=cfg, devs=devs, speed=rng.choice([(1, 1), (2, 1)]), stim=stim,
+                     initial=rng.choice([0, 0, 0, 86_400_000_000_000, 1_700_000_000_000_000_000]))
             pairs.append((b, extend(rng, b)))
         check_fn = "check_ext_pair"
     runs, terms = [], []
